@@ -726,6 +726,8 @@ private:
       date.tm_hour = static_cast<decltype(date.tm_hour)>(config.daily_rotation_time().first.count());
       date.tm_min = static_cast<decltype(date.tm_min)>(config.daily_rotation_time().second.count());
       date.tm_sec = 0;
+      // let mktime decide whether daylight saving time is in effect at that time of the day
+      date.tm_isdst = -1;
     }
     else
     {
@@ -733,12 +735,20 @@ private:
     }
 
     // convert back to timestamp
-    time_t const rotation_time =
+    time_t rotation_time =
       (config.timezone() == Timezone::GmtTime) ? detail::timegm(&date) : std::mktime(&date);
 
-    uint64_t const rotation_time_seconds = (rotation_time > time_now)
-      ? static_cast<uint64_t>(rotation_time)
-      : static_cast<uint64_t>(rotation_time + std::chrono::seconds{std::chrono::hours{24}}.count());
+    if (rotation_time <= time_now)
+    {
+      // today's rotation time has passed, use the same time of the day tomorrow. Adding 24 hours
+      // is wrong on the days daylight saving time starts or ends (23 or 25 hours long)
+      date.tm_mday += 1;
+      date.tm_isdst = -1;
+      rotation_time =
+        (config.timezone() == Timezone::GmtTime) ? detail::timegm(&date) : std::mktime(&date);
+    }
+
+    uint64_t const rotation_time_seconds = static_cast<uint64_t>(rotation_time);
 
     return static_cast<uint64_t>(
       std::chrono::nanoseconds{std::chrono::seconds{rotation_time_seconds}}.count());
